@@ -90,25 +90,29 @@ def general_case(rng):
     e0 = sector_ground_energy(Hd, [int(q) for q in qd], L, total)
     numsweeps = int(rng.integers(1, 4)); numiter = int(rng.integers(2, 10)) if rng.random() < 0.5 else 25
     Hs = mpsgen.snapshot(H)
-    what = f'{"two" if two else "single"}-site DMRG, L={L}, D={psi.bond_dims}, numsweeps={numsweeps}, numiter={numiter}'
+    # two-site DMRG with a genuine truncation (tol_split > 0): the clauses 'energy of the returned state = last reported energy' and
+    # 'never exceeds the energy of the start' are FALSE there (known finding F13: the Ritz value is reported before the truncating
+    # split); everything else is still demanded, so any other violation is reported as usual
+    tsp = float(rng.choice([0.05, 0.2, 0.4])) if (two and rng.random() < 0.35) else 0.0
+    what = f'{"two" if two else "single"}-site DMRG, L={L}, D={psi.bond_dims}, numsweeps={numsweeps}, numiter={numiter}' + (f', tol_split={tsp}' if tsp else '')
     tol = 1e-8 * max(1.0, np.abs(Hd).max())
     try:
         for rep in range(2):
             if two:
-                en = ptn.calculate_ground_state_local_twosite(H, psi, numsweeps, numiter_lanczos=numiter, tol_split=0)
+                en = ptn.calculate_ground_state_local_twosite(H, psi, numsweeps, numiter_lanczos=numiter, tol_split=tsp)
             else:
                 en = ptn.calculate_ground_state_local_singlesite(H, psi, numsweeps, numiter_lanczos=numiter)
             v = dense_mps(psi)
             if abs(np.linalg.norm(v) - 1) > 1e-8:
                 return f'{what}: returned state has norm {np.linalg.norm(v)}'
             e = np.vdot(v, Hd @ v).real
-            if abs(e - en[-1]) > tol * 10:
+            if abs(e - en[-1]) > tol * 10 and not tsp:
                 return f'{what}: last reported energy {en[-1]} but <psi|H|psi> = {e}'
             if e0 is not None and np.any(en < e0 - tol * 10):
                 return f'{what}: reported energy {en.min()} below the exact ground-state energy {e0} of the sector'
-            if np.any(en > e_start + tol * 10):
+            if np.any(en > e_start + tol * 10) and not tsp:
                 return f'{what}: reported energy {en.max()} exceeds the energy {e_start} of the normalized starting state'
-            if np.any(np.diff(en) > tol * 10):
+            if np.any(np.diff(en) > tol * 10) and not tsp:
                 return f'{what}: reported energies increase: {en}'
             if mpsgen.snapshot(H) != Hs:
                 return f'{what}: the Hamiltonian MPO was modified'
@@ -118,6 +122,36 @@ def general_case(rng):
     except Exception as ex:
         return f'{what}: raises {type(ex).__name__}: {ex}'
     return None
+
+
+def f13_instance(tol_split):
+    """the listed input of known finding F13: XXZ chain (L = 3, J = 1, D = 1/2, h = 1/4, charges zeroed) and a fixed real start state
+    with bonds [1, 2, 2, 1]; returns (last reported energy, <psi|H|psi> of the returned state, norm)"""
+    import pytenet as ptn
+    H = ptn.heisenberg_xxz_mpo(3, 1.0, 0.5, 0.25); H.zero_qnumbers()
+    psi = ptn.MPS(H.qd, [np.zeros(d, dtype=int) for d in [1, 2, 2, 1]], fill=0.0)
+    vals = iter(range(1, 100))
+    for i in range(3):
+        A = np.zeros(psi.A[i].shape)
+        for idx in np.ndindex(*A.shape):
+            A[idx] = ((next(vals) * 7) % 11 - 5) / 4
+        psi.A[i] = A
+    en = ptn.calculate_ground_state_local_twosite(H, psi, 2, numiter_lanczos=25, tol_split=tol_split)
+    v = dense_mps(psi)
+    return float(en[-1]), float(np.vdot(v, dense_mpo(H) @ v).real), float(np.linalg.norm(v))
+
+
+def known_findings_present(k):
+    """F13: the listed input, replayed on the real code on every run"""
+    if k.get('key') != 'dmrg2-truncation-energy':
+        return False
+    try:
+        e_rep, e_state, n = f13_instance(0.3)
+        e_rep0, e_state0, _ = f13_instance(0.0)
+    except Exception:
+        return False
+    # with truncation the reported Ritz value differs from the energy of the returned state; without truncation it does not
+    return abs(e_rep - e_state) > 1e-6 and abs(e_rep0 - e_state0) < 1e-9 and abs(n - 1) < 1e-9
 
 
 # minimized past failures run first: the cases on which the unrepaired Lanczos iteration (F11: more iterations than the
